@@ -390,6 +390,228 @@ static void scn_join(void) {
   snprintf(sch->obs, sizeof sch->obs, "join ok");
 }
 
+/* ---- mixed entry kinds on one Mutex ("lockmix") ------------------------------------------
+** Every worker runs its own short program over L (lock, section, unlock), T (one trylock; on success section, unlock;
+** on failure it goes on without entering) and W (`with (x in m) { section }`).  Whatever the mix: no thread is inside a
+** section while another is; a with block holds the Mutex for its whole body (there is a scheduling point inside every
+** section) and its exit releases exactly the hold its entry took (the sections that follow still exclude each other and
+** the Mutex is free once every section has ended); every L and W section runs exactly once. */
+static char mix_prog[SCH_MAXT][8];       /* program of worker i (0-based) */
+static var MIXIDX[SCH_MAXT];             /* static argument objects: the worker's index */
+static volatile int mix_holder, mix_holder_kind;   /* harness view: id+1 of the thread between its entry and its release */
+static volatile int mix_expected, mix_try_failed;
+
+static void mix_section(int me, char kind) {
+  if (in_section || mix_holder)
+    sch_fail("critical-sections-overlap", "thread %d entered its section through %s while thread %d, which entered through %s, was still inside the section guarded by the same Mutex",
+      me, kind == 'L' ? "lock" : kind == 'T' ? "trylock" : "a with block", mix_holder - 1, mix_holder_kind == 'L' ? "lock" : mix_holder_kind == 'T' ? "trylock" : "a with block");
+  mix_holder = me + 1; mix_holder_kind = kind;
+  in_section = 1;
+  olog((char)('0' + me)); olog(kind);
+  int c = counter;
+  sch_point(SCH_SITE_USER);          /* a preemption here must not let anyone else in */
+  if (mix_holder != me + 1) sch_fail("critical-sections-overlap", "thread %d: while it was inside its %s section another thread entered and left", me, kind == 'L' ? "lock" : kind == 'T' ? "trylock" : "with-block");
+  counter = c + 1;
+  entered++;
+  in_section = 0;
+  mix_holder = 0;
+}
+
+static var body_mix(var args) {
+  int me = my_id();
+  const char* p = mix_prog[c_int(get(args, $I(0)))];
+  for (; *p; p++) {
+    if (*p == 'L') { lock(mtx); mix_section(me, 'L'); unlock(mtx); __sync_fetch_and_add(&mix_expected, 1); }
+    else if (*p == 'T') {
+      if (trylock(mtx)) { mix_section(me, 'T'); unlock(mtx); __sync_fetch_and_add(&mix_expected, 1); }
+      else {
+        /* under the scheduler nothing runs between the library's attempt and this line, and the harness view changes only
+        ** while the Mutex is held: a refusal with nobody inside is "busy" reported for a free Mutex */
+        if (!free_mode && !mix_holder) sch_fail("trylock-refused-on-free-mutex", "thread %d: trylock returned false although no thread was inside a section of this Mutex", me);
+        __sync_fetch_and_add(&mix_try_failed, 1);
+      }
+    }
+    else { with (m in mtx) { mix_section(me, 'W'); } __sync_fetch_and_add(&mix_expected, 1); }
+  }
+  done_flag[me] = 1;
+  return NULL;
+}
+
+static void scn_lockmix(void) {
+  mtx = new_raw(Mutex);
+  var th[SCH_MAXT];
+  var fobj = $(Function, body_mix);
+  for (int i = 0; i < nthreads; i++) { th[i] = new_raw(Thread, fobj); call(th[i], MIXIDX[i]); }
+  for (int i = 0; i < nthreads; i++) join(th[i]);
+  for (int i = 1; i <= nthreads; i++) if (!done_flag[i]) sch_fail("join-returned-before-thread-finished", "all threads joined but worker %d has not finished its program", i);
+  if (counter != entered || entered != mix_expected) sch_fail("lost-update-in-critical-section", "counter=%d after %d sections were entered and %d left", counter, entered, mix_expected);
+  /* every section has ended, every entry was paired with its own release: the Mutex is free */
+  if (!trylock(mtx)) sch_fail("mutex-still-held-after-every-section-ended", "all %d sections ended and released, but the main thread's trylock is refused", entered);
+  else unlock(mtx);
+  for (int i = 0; i < nthreads; i++) del_raw(th[i]);
+  del_raw(mtx);
+  sch->digest = (uint64_t)counter * 16 + (uint64_t)mix_try_failed;
+  snprintf(sch->obs, sizeof sch->obs, "lockmix: %d sections, %d refused trylocks, entry order %s", entered, mix_try_failed, order_log);
+}
+
+/* ---- thread-local storage across Thread object lifetimes ("tlshist") --------------------
+** The main thread runs a history over two Thread slots: n<s> create, c<s> call, j<s> join, d<s> delete.  Every run of a
+** Thread (a) looks at its own storage, current(Thread) used as a key/value store, before touching it: a key may be there
+** only if an earlier run of this same Thread object left it, and then with that run's value - a freshly created Thread
+** holds nothing, whatever other Thread objects existed, ran, were joined or deleted before; (b) sets one or two keys to
+** values only this run uses and reads them back, again after a scheduling point.  The main thread keeps a value of its own
+** under one of the same key names for the whole history and never sees a key only the workers set. */
+#define HIST_KEYS 2
+#define HIST_MAXRUN 8
+static const char* hist_key[HIST_KEYS] = { "ka", "kb" };
+static char hist_prog[40];
+static var hist_th[2];
+static var hist_model[2][HIST_KEYS];       /* what earlier runs of the Thread object now in the slot left in its storage */
+static int hist_model_run[2][HIST_KEYS];
+static int hist_gen[2], hist_ngen, hist_obj_runs[2];   /* the how-manieth Thread object created is in the slot; how often it was run */
+static int hist_run_slot[HIST_MAXRUN + 1], hist_last_run[2], hist_nrun;
+static var HISTVAL[HIST_MAXRUN + 1][HIST_KEYS], HISTRUN[HIST_MAXRUN + 1], HISTMAIN;
+static volatile int hist_done[HIST_MAXRUN + 1];
+
+static var body_hist(var args) {
+  my_id();
+  int r = (int)c_int(get(args, $I(0)));
+  int s = hist_run_slot[r];
+  var self = current(Thread);
+  for (int k = 0; k < HIST_KEYS; k++) {
+    volatile int present = 0; volatile var got = NULL;
+    var e = VF_CATCH({ present = mem(self, $S((char*)hist_key[k])); if (present) got = get(self, $S((char*)hist_key[k])); });
+    if (e) { sch_fail("thread-local-storage-unreadable", "run %d: looking up \"%s\" in its own storage raised %s", r, hist_key[k], vf_exc_name(e)); continue; }
+    if (present && !hist_model[s][k])
+      sch_fail("thread-sees-thread-local-value-it-never-set", "run %d (the %s run of Thread object #%d) finds key \"%s\" in its own storage at start; no run of this Thread object ever set it", r, hist_obj_runs[s] > 1 ? "second or later" : "first", hist_gen[s], hist_key[k]);
+    else if (present && got != hist_model[s][k])
+      sch_fail("thread-local-value-diverted", "run %d (Thread object #%d): key \"%s\" was left by run %d of the same object, but holds another value now", r, hist_gen[s], hist_key[k], hist_model_run[s][k]);
+    if (!present) { hist_model[s][k] = NULL; hist_model_run[s][k] = 0; }
+  }
+  /* its own values: key r%2 always, the other one too in every third run */
+  for (int k = 0; k < HIST_KEYS; k++) {
+    if (k != r % 2 && r % 3 != 0) continue;
+    set(self, $S((char*)hist_key[k]), HISTVAL[r][k]);
+    hist_model[s][k] = HISTVAL[r][k]; hist_model_run[s][k] = r;
+  }
+  for (int pass = 0; pass < 2; pass++) {
+    for (int k = 0; k < HIST_KEYS; k++) {
+      volatile int present = 0; volatile var got = NULL;
+      var e = VF_CATCH({ present = mem(self, $S((char*)hist_key[k])); if (present) got = get(self, $S((char*)hist_key[k])); });
+      if (e) { sch_fail("thread-local-storage-unreadable", "run %d: looking up \"%s\" in its own storage raised %s", r, hist_key[k], vf_exc_name(e)); continue; }
+      if (hist_model[s][k] && (!present || got != hist_model[s][k])) sch_fail("thread-local-value-not-seen-by-its-own-thread", "run %d: key \"%s\" of its own storage %s", r, hist_key[k], present ? "holds a value it did not put there" : "vanished");
+      if (!hist_model[s][k] && present) sch_fail("thread-sees-thread-local-value-it-never-set", "run %d: key \"%s\" appeared in its own storage while it ran", r, hist_key[k]);
+    }
+    if (pass == 0) sch_point(SCH_SITE_USER);
+  }
+  olog((char)('0' + r));
+  hist_done[r] = 1;
+  return NULL;
+}
+
+static void scn_tlshist(void) {
+  var fobj = $(Function, body_hist);
+  set(current(Thread), $S("ka"), HISTMAIN);
+  for (const char* p = hist_prog; p[0] && p[1]; p += 2) {
+    int s = p[1] - '0';
+    switch (p[0]) {
+    case 'n':
+      hist_th[s] = managed_thread ? (var)new(Thread, fobj) : (var)new_raw(Thread, fobj);
+      hist_gen[s] = ++hist_ngen; hist_last_run[s] = 0; hist_obj_runs[s] = 0;
+      for (int k = 0; k < HIST_KEYS; k++) { hist_model[s][k] = NULL; hist_model_run[s][k] = 0; }
+      break;
+    case 'c':
+      if (hist_nrun == HIST_MAXRUN) { fprintf(stderr, "h_thread: too many runs in %s\n", hist_prog); _exit(2); }
+      hist_nrun++; hist_run_slot[hist_nrun] = s; hist_last_run[s] = hist_nrun; hist_obj_runs[s]++;
+      call(hist_th[s], HISTRUN[hist_nrun]);
+      break;
+    case 'j':
+      join(hist_th[s]);
+      if (!hist_done[hist_last_run[s]]) sch_fail("join-returned-before-thread-finished", "join of run %d returned before its function finished", hist_last_run[s]);
+      break;
+    case 'd':
+      if (managed_thread) del(hist_th[s]); else del_raw(hist_th[s]);
+      hist_th[s] = NULL;
+      break;
+    }
+    /* the main thread's own storage is its own */
+    if (!mem(current(Thread), $S("ka")) || get(current(Thread), $S("ka")) != HISTMAIN) sch_fail("thread-local-value-not-seen-by-its-own-thread", "main thread: its own key \"ka\" changed after step %c%c of the history", p[0], p[1]);
+    if (mem(current(Thread), $S("kb"))) sch_fail("thread-sees-thread-local-value-it-never-set", "main thread finds key \"kb\", which only worker threads set, after step %c%c of the history", p[0], p[1]);
+  }
+  for (int s = 0; s < 2; s++) if (hist_th[s]) { if (managed_thread) del(hist_th[s]); else del_raw(hist_th[s]); }
+  rem(current(Thread), $S("ka"));
+  sch->digest = (uint64_t)hist_nrun;
+  snprintf(sch->obs, sizeof sch->obs, "tlshist %s: %d runs ok, finish order %s", hist_prog, hist_nrun, order_log);
+}
+
+/* explore one program of a family with the shared explorer settings; counts accumulate in *ex */
+static char family_name[96];
+static void explore_program(struct sch_explorer* ex, const char* fmt, ...) {
+  va_list ap; va_start(ap, fmt); vsnprintf(family_name, sizeof family_name, fmt, ap); va_end(ap);
+  ex->name = family_name; vf.phase = family_name;
+  vf_set_init(&ex->outcomes, 64); vf_set_init(&ex->traces, 1024);
+  ex->ntraces = 0;
+  vf_set_cur("%s: exploring", family_name);
+  sch_explore_rec(ex, NULL, 0, 0);
+  vf.states += ex->ntraces;
+  for (size_t i = 0; i < ex->traces.cap; i++) free(ex->traces.keys[i]);
+  free(ex->traces.keys); free(ex->traces.vals);
+  for (size_t i = 0; i < ex->outcomes.cap; i++) free(ex->outcomes.keys[i]);
+  free(ex->outcomes.keys); free(ex->outcomes.vals);
+}
+
+/* all tuples of non-empty programs over `ops`, thread i at most maxlen[i] long */
+static uint64_t mix_programs;
+static void mix_enumerate(struct sch_explorer* ex, const char* ops, const int* maxlen, int t) {
+  if (t == nthreads) {
+    char nm[64] = ""; for (int i = 0; i < nthreads; i++) { strcat(nm, i ? "+" : ""); strcat(nm, mix_prog[i]); }
+    mix_programs++;
+    explore_program(ex, "lockmix/%s/t%d/b%d", nm, nthreads, ex->bound);
+    return;
+  }
+  int nops = (int)strlen(ops), idx[8];
+  for (int len = 1; len <= maxlen[t]; len++) {
+    memset(idx, 0, sizeof idx);
+    for (;;) {
+      for (int i = 0; i < len; i++) mix_prog[t][i] = ops[idx[i]];
+      mix_prog[t][len] = 0;
+      mix_enumerate(ex, ops, maxlen, t + 1);
+      int i = len - 1;
+      while (i >= 0 && ++idx[i] == nops) idx[i--] = 0;
+      if (i < 0) break;
+    }
+  }
+  mix_prog[t][0] = 0;
+}
+
+/* all histories of exactly `len` steps over two slots that leave no thread running, contain at least `mincalls` calls,
+** never delete a Thread object that was never run, and use slot 1 only after slot 0 (the slots are interchangeable) */
+static uint64_t hist_programs;
+static void hist_enumerate(struct sch_explorer* ex, int len, int mincalls, int pos, int* st, int* ran, int calls, int used0) {
+  if (pos == len) {
+    if (st[0] == 2 || st[1] == 2 || calls < mincalls) return;
+    hist_prog[2 * pos] = 0;
+    hist_programs++;
+    explore_program(ex, "tlshist/%s/%s/b%d", hist_prog, managed_thread ? "managed" : "raw", ex->bound);
+    return;
+  }
+  for (int s = 0; s < 2; s++) {
+    if (s == 1 && !used0) continue;
+    const char* cand = st[s] == 0 ? "n" : st[s] == 1 ? "cd" : "j";
+    for (const char* c = cand; *c; c++) {
+      if (*c == 'd' && !ran[s]) continue;
+      if (*c == 'c' && calls == HIST_MAXRUN) continue;
+      int st0 = st[s], ran0 = ran[s];
+      st[s] = *c == 'n' ? 1 : *c == 'c' ? 2 : *c == 'j' ? 1 : 0;
+      if (*c == 'n') ran[s] = 0;
+      if (*c == 'c') ran[s] = 1;
+      hist_prog[2 * pos] = *c; hist_prog[2 * pos + 1] = (char)('0' + s);
+      hist_enumerate(ex, len, mincalls, pos + 1, st, ran, calls + (*c == 'c'), used0 || s == 0);
+      st[s] = st0; ran[s] = ran0;
+    }
+  }
+}
+
 int64_t seq_ref(int id);
 
 /* ---- free-running pass under ThreadSanitizer ---------------------------------------------
@@ -490,6 +712,8 @@ int main(int argc, char** argv) {
   if (strncmp(scn, "mutex-", 6) == 0) {
     mutex_pattern = strcmp(scn, "mutex-lock") == 0 ? 0 : strcmp(scn, "mutex-trylock") == 0 ? 1 : 2;
     ex.scenario = scn_mutex; ex.site_mask = 0;
+  } else if (strcmp(scn, "lockmix") == 0 || strcmp(scn, "tlshist") == 0) {
+    /* families of small programs, each explored exhaustively within the bound; handled below */
   } else if (strcmp(scn, "rerun") == 0) {
     the_body = body_exc; the_body_name = "exc"; ex.site_mask = exc_sites | thr_sites;
     static int64_t solo_r[SCH_MAXT]; the_solo = solo_r; the_solo[1] = seq_ref(1);
@@ -513,6 +737,58 @@ int main(int argc, char** argv) {
     ex.scenario = parent ? scn_parent_collects : scn_workers;
     /* reference values: each worker run as the id-th created thread with nothing else running concurrently */
     for (int id = 1; id <= (parent ? 1 : nthreads); id++) the_solo[id] = seq_ref(id);
+  }
+
+  if (strcmp(scn, "lockmix") == 0 || strcmp(scn, "tlshist") == 0) {
+    int is_mix = scn[0] == 'l';
+    int freerun = vf_param_is("mode", "free", "sched");
+    ex.scenario = is_mix ? scn_lockmix : scn_tlshist;
+    ex.site_mask = is_mix ? 0 : (tab_sites | thr_sites);
+    for (int i = 0; i < SCH_MAXT; i++) MIXIDX[i] = new_raw(Int, $I(i));
+    for (int r = 0; r <= HIST_MAXRUN; r++) { HISTRUN[r] = new_raw(Int, $I(r)); for (int k = 0; k < HIST_KEYS; k++) HISTVAL[r][k] = new_raw(Int, $I(1000 * r + k)); }
+    HISTMAIN = new_raw(Int, $I(-1));
+    /* one program: prog=<text> (free-running pass), or the one named in a replayed case "family/<program>/..." */
+    char one[64] = ""; const char* pp = vf_param("prog", NULL);
+    if (vf.replay) { const char* a = strchr(vf.replay, '/'); const char* b = a ? strchr(a + 1, '/') : NULL; if (a && b && b - a - 1 < (long)sizeof one) { memcpy(one, a + 1, (size_t)(b - a - 1)); one[b - a - 1] = 0; } }
+    else if (pp) snprintf(one, sizeof one, "%s", pp);
+    if (vf.replay && strstr(vf.replay, "/managed/")) managed_thread = 1;
+    if (one[0]) {
+      if (is_mix) {
+        nthreads = 0;
+        for (char* tok = strtok(one, "+"); tok && nthreads < SCH_MAXT - 1; tok = strtok(NULL, "+")) snprintf(mix_prog[nthreads++], sizeof mix_prog[0], "%s", tok);
+        char nm[64] = ""; for (int i = 0; i < nthreads; i++) { strcat(nm, i ? "+" : ""); strcat(nm, mix_prog[i]); }
+        snprintf(family_name, sizeof family_name, "lockmix/%s/t%d/b%d", nm, nthreads, ex.bound);
+      } else {
+        snprintf(hist_prog, sizeof hist_prog, "%s", one);
+        snprintf(family_name, sizeof family_name, "tlshist/%s/%s/b%d", hist_prog, managed_thread ? "managed" : "raw", ex.bound);
+      }
+      ex.name = family_name;
+      if (freerun) { run_free(&ex, (int)vf_param_i("runs", 5)); vf_finish(); }
+      if (vf.replay) sch_replay(&ex, vf.replay);
+      else { explore_program(&ex, "%s", strdup(family_name)); mix_programs = hist_programs = 1; }
+    } else if (is_mix) {
+      /* lens=2,1: the longest program of thread 1, 2, ...; ops=LTW the alphabet */
+      int maxlen[SCH_MAXT]; const char* ls = vf_param("lens", "2,1"); nthreads = 0;
+      while (*ls && nthreads < SCH_MAXT - 1) { maxlen[nthreads++] = (int)strtol(ls, (char**)&ls, 10); if (*ls == ',') ls++; }
+      mix_enumerate(&ex, vf_param("ops", "LTW"), maxlen, 0);
+    } else {
+      int st[2] = { 0, 0 }, ran[2] = { 0, 0 };
+      for (int len = (int)vf_param_i("minlen", 4); len <= (int)vf_param_i("len", 7); len++) hist_enumerate(&ex, len, (int)vf_param_i("mincalls", 2), 0, st, ran, 0, 0);
+    }
+    if (!vf.replay) {
+      uint64_t np = is_mix ? mix_programs : hist_programs;
+      if (ex.capped) { vf.exhaustive = 0; vf_note("%s: schedule cap/deadline hit after %" PRIu64 " schedules of %" PRIu64 " programs", scn, ex.schedules, np); }
+      else vf_note("%s: %" PRIu64 " programs, for each all schedules with at most %d preemptions: %" PRIu64 " schedules (by preemptions: %" PRIu64 "/%" PRIu64 "/%" PRIu64 "/%" PRIu64 "), up to %d choice points each, %" PRIu64 " distinct (program, interleaving) pairs",
+        scn, np, ex.bound, ex.schedules, ex.by_preempt[0], ex.by_preempt[1], ex.by_preempt[2], ex.by_preempt[3], ex.max_points, (uint64_t)vf.states);
+      vf_extra("programs", "%" PRIu64, np);
+    }
+    vf_extra("schedules", "%" PRIu64, ex.schedules);
+    vf_extra("preemption_bound", "%d", ex.bound);
+    vf_extra("max_choice_points", "%d", ex.max_points);
+    vf_extra("distinct_outcomes", "%" PRIu64, ex.noutcomes);
+    vf.outcomes = ex.noutcomes;
+    vf_finish();
+    return 0;
   }
 
   if (vf_param_is("mode", "free", "sched")) { run_free(&ex, (int)vf_param_i("runs", 5)); vf_finish(); }
